@@ -130,11 +130,9 @@ type ByteStealer struct {
 }
 
 func (s *ByteStealer) Write(p []byte) (n int, err error) {
-	if nil == s.Data {
-		s.Data = p[0:len(p):len(p)]
-	} else {
-		s.Data = append(s.Data, p...)
-	}
+	// an io.Writer must not retain p: a source that issues several writes
+	// (bufio.Reader, io.Copy, ...) may refill the same buffer in between.
+	s.Data = append(s.Data, p...)
 	return len(p), nil
 }
 
